@@ -88,4 +88,16 @@ TEXTS = {
         "note": "trusted: Lean kernel + audited axioms; the physical model is the host's behaviour as tabulated (assumption validated on every run against the host); timestamps and message texts are outside the property",
         "technique": "Lean 4 proof (simulation between two models, induction over histories) + direct differential test of the two real backends",
     },
+    "C11": {
+        "level": "Lean 4 theorems: all four transfers refuse an existing destination without changing the world (arbitrary filesystems); create_dir_all leaves exactly the requested chain (index lemma for the visited prefixes, exact effect with frame, first file prefix reported without change); remove_dir_all succeeds without change on an absent path and removes exactly the subtree, everything else unchanged (full mutual induction on the in-memory map); copy_file and move_file produce the source bytes at the destination, leave the source untouched / absent, with frame on both leaves, with the SAME conclusion for one instance and for two instances, and the physical fast path yields content-equal maps; copy_dir/move_dir with count for flat directories. PARTIAL: the nested-tree statement of copy_dir/move_dir is stated but not proved (kernel-evaluated examples and the stream cover it). Tied to the code by the xfer stream on every ordered pair of 6 backend/adapter kinds plus same-instance, with implementation-only predicates (copy equals source, source untouched/gone, count, refusals side-effect free, exact chain, exact subtree, pair-independent outcomes).",
+        "design_ref": "DESIGN.md §6 C11",
+        "note": "trusted: Lean kernel + audited axioms (examples use decide +kernel: kernel evaluation, no axiom); models tied by the xfer and tree streams; std::fs::copy/rename as tabulated",
+        "technique": "Lean 4 proof over hand-written model + differential correspondence check over all ordered instance pairs",
+    },
+    "C13": {
+        "level": "Lean 4 theorems over a model in which every Rust panic site (slice/index out of range, integer overflow, unwrap on a failing value, missing leaf) is an explicit outcome: no call of the sync API reaches it — path algebra on all strings, read/seek/write handles at any offset and in any world (also after the file was removed), every leaf function on every map, every VfsPath operation, AltrootFS, OverlayFS with any layers, EmbeddedFS (root included), any stacking, and any finite script of public operations on arbitrary join strings; a panic outcome of the recursive operations can only be the model's fuel sentinel. PARTIAL: termination on finite trees is not proved; the async port and hostile on-disk content have no Lean model and are decided by the async and hostile streams (catch_unwind around every call, three executors, injected Pending, non-UTF-8 names, dangling symlinks). Tied to the code by five streams on the unrestricted domain.",
+        "design_ref": "DESIGN.md §6 C13",
+        "note": "trusted: Lean kernel + audited axioms; the placement of panic sites in the model (read from the source, kept in step by the correspondence streams); the dev profile's overflow checks; OverlayFS::new(&[]) is the documented panic",
+        "technique": "Lean 4 proof (panic-freedom calculus) over hand-written model + catch_unwind exploration on the unrestricted domain",
+    },
 }
